@@ -32,10 +32,11 @@ FAMILIES = ['uniform-int', 'uniform-h0.1', 'one-sided', 'chebyshev', 'cubic-clus
             'reversed', 'interleaved']
 X0KINDS = ['first-node', 'middle-node', 'centroid+0.0371', 'min-0.5', 'max+2']
 # the same shapes on other scales and next to a symmetric stencil: nothing may be measured against an absolute size
-SCALE_FAMILIES = ['tiny-offsets', 'coarse', 'near-symmetric']
+SCALE_FAMILIES = ['tiny-offsets', 'coarse', 'near-symmetric', 'sub-eps']
 FAMILY_X0 = {'tiny-offsets': ['first-node', 'middle-node', 'between-nodes-2^-36'],
              'coarse': ['first-node', 'middle-node', 'centroid+0.0371', 'max+2'],
-             'near-symmetric': ['middle-node', 'middle-node+5e-9', 'first-node']}
+             'near-symmetric': ['middle-node', 'middle-node+5e-9', 'first-node'],
+             'sub-eps': ['first-node', 'middle-node', 'between-nodes-2^-60']}
 SIZES = list(range(2, 15))
 PERM7_FAMILIES = ['cubic-cluster', 'geometric']
 
@@ -56,6 +57,8 @@ def family(name, m):
         return [0.01 * 1.5 ** i for i in r]
     if name == 'tiny-offsets':               # one-sided, non-uniform, offsets of order 1e-10 from 1 (exact in binary)
         return [1.0 + 2.0 ** -35 * (i * (i + 7) // 2) for i in r]
+    if name == 'sub-eps':                    # distinct nodes around 0 whose gaps are below machine epsilon in absolute terms
+        return [2.0 ** -58 * v for v in [0.0, 3.0, 1.0, 7.0, 4.0, 2.0, 9.0, 12.0, 5.0][:m]]
     if name == 'coarse':                     # spacing ~ 400
         return [4096.0 * (0.3 + 0.1 * i) for i in r]
     if name == 'near-symmetric':             # a symmetric integer stencil with two nodes moved by 3e-6 / 1e-6
@@ -83,6 +86,8 @@ def x0_of(kind, x):
         return math.fsum(x) / len(x) + 0.0371
     if kind == 'between-nodes-2^-36':
         return x[1] + 2.0 ** -36
+    if kind == 'between-nodes-2^-60':
+        return x[1] + 2.0 ** -60
     if kind == 'middle-node+5e-9':
         return x[len(x) // 2] + 5e-9
     if kind == 'min-0.5':
